@@ -7,6 +7,7 @@ CHECKS = {
     "C06": lambda tier: deps.run_property("C06", tier),
     "C07": lambda tier: deps.run_property("C07", tier),
     "C10": lambda tier: pipeline.run_c10(tier),
+    "C13": lambda tier: container.run_c13(tier),
     "C15": lambda tier: container.run_c15(tier),
     "C16": lambda tier: deps.run_c16(tier),
     "C18": lambda tier: version.run_c18(tier),
